@@ -260,6 +260,198 @@ theorem fwd_tan_real (pi s lo hi v : ℝ) :
     fwd pi s lo hi false v = s * Real.tan (pi * (v - lo) / (hi - lo) - pi / 2) := by
   unfold fwd; simp
 
+/-- the same parameter at another transformed coordinate -/
+def «at» (t : IT ℝ) (x : ℝ) : IT ℝ := { t with x := x }
+@[simp] theorem at_x (t : IT ℝ) (x : ℝ) : (t.at x).x = x := rfl
+@[simp] theorem at_scale (t : IT ℝ) (x : ℝ) : (t.at x).scale = t.scale := rfl
+@[simp] theorem at_lo (t : IT ℝ) (x : ℝ) : (t.at x).lo = t.lo := rfl
+@[simp] theorem at_hi (t : IT ℝ) (x : ℝ) : (t.at x).hi = t.hi := rfl
+@[simp] theorem at_hyper (t : IT ℝ) (x : ℝ) : (t.at x).hyper = t.hyper := rfl
+@[simp] theorem at_self (t : IT ℝ) : t.at t.x = t := rfl
+
+/-- explicit forms of the back-transformation as a function of the coordinate -/
+noncomputable def gh (s lo hi x : ℝ) : ℝ := (Real.tanh (x / s) + 1) * (hi - lo) / 2 + lo
+noncomputable def gt (pi s lo hi x : ℝ) : ℝ := (Real.arctan (x / s) + pi / 2) * (hi - lo) / pi + lo
+
+theorem getOriginal_at (pi : ℝ) (t : IT ℝ) (x : ℝ) :
+    getOriginal pi (t.at x) = if t.hyper then gh t.scale t.lo t.hi x else gt pi t.scale t.lo t.hi x := by
+  obtain ⟨s, lo, hi, hy, x0⟩ := t
+  cases hy <;> simp [getOriginal_real, «at», gh, gt]
+
+theorem gh_mem (s lo hi x : ℝ) (h : lo < hi) : lo < gh s lo hi x ∧ gh s lo hi x < hi := by
+  unfold gh
+  have h1 := Real.neg_one_lt_tanh (x / s)
+  have h2 := Real.tanh_lt_one (x / s)
+  have hw : 0 < hi - lo := by linarith
+  constructor
+  · have : 0 < (Real.tanh (x / s) + 1) * (hi - lo) / 2 := by
+      apply div_pos (mul_pos (by linarith) hw) (by norm_num)
+    linarith
+  · have : (Real.tanh (x / s) + 1) * (hi - lo) / 2 < (hi - lo) := by
+      rw [div_lt_iff₀ (by norm_num : (0:ℝ) < 2)]
+      nlinarith
+    linarith
+
+theorem gh_strictMono (s lo hi : ℝ) (hs : 0 < s) (h : lo < hi) : StrictMono (gh s lo hi) := by
+  intro x y hxy
+  unfold gh
+  have : Real.tanh (x / s) < Real.tanh (y / s) := tanh_strictMono (div_lt_div_of_pos_right hxy hs)
+  have hw : 0 < hi - lo := by linarith
+  have : (Real.tanh (x / s) + 1) * (hi - lo) < (Real.tanh (y / s) + 1) * (hi - lo) :=
+    mul_lt_mul_of_pos_right (by linarith) hw
+  linarith
+
+theorem gt_strictMono (pi s lo hi : ℝ) (hpi : 0 < pi) (hs : 0 < s) (h : lo < hi) :
+    StrictMono (gt pi s lo hi) := by
+  intro x y hxy
+  unfold gt
+  have : Real.arctan (x / s) < Real.arctan (y / s) :=
+    Real.arctan_strictMono (div_lt_div_of_pos_right hxy hs)
+  have hw : 0 < hi - lo := by linarith
+  have h1 : (Real.arctan (x / s) + pi / 2) * (hi - lo) < (Real.arctan (y / s) + pi / 2) * (hi - lo) :=
+    mul_lt_mul_of_pos_right (by linarith) hw
+  have := div_lt_div_of_pos_right h1 hpi
+  linarith
+
+/-- the tangent back-transformation stays within `(π - pi)/(2 pi)` interval widths of the interval,
+whatever the constant `pi > 0` used for π -/
+theorem gt_mem (pi s lo hi x : ℝ) (hpi : 0 < pi) (h : lo < hi) :
+    lo - (Real.pi - pi) / (2 * pi) * (hi - lo) < gt pi s lo hi x ∧
+    gt pi s lo hi x < hi + (Real.pi - pi) / (2 * pi) * (hi - lo) := by
+  unfold gt
+  have h1 := Real.neg_pi_div_two_lt_arctan (x / s)
+  have h2 := Real.arctan_lt_pi_div_two (x / s)
+  have hw : 0 < hi - lo := by linarith
+  constructor
+  · have e : lo - (Real.pi - pi) / (2 * pi) * (hi - lo) = (-(Real.pi / 2) + pi / 2) * (hi - lo) / pi + lo := by
+      field_simp; ring
+    rw [e]
+    have : (-(Real.pi / 2) + pi / 2) * (hi - lo) < (Real.arctan (x / s) + pi / 2) * (hi - lo) :=
+      mul_lt_mul_of_pos_right (by linarith) hw
+    have := div_lt_div_of_pos_right this hpi
+    linarith
+  · have e : hi + (Real.pi - pi) / (2 * pi) * (hi - lo) = (Real.pi / 2 + pi / 2) * (hi - lo) / pi + lo := by
+      field_simp; ring
+    rw [e]
+    have : (Real.arctan (x / s) + pi / 2) * (hi - lo) < (Real.pi / 2 + pi / 2) * (hi - lo) :=
+      mul_lt_mul_of_pos_right (by linarith) hw
+    have := div_lt_div_of_pos_right this hpi
+    linarith
+
+/-- with a guard on the angle the tangent back-transformation is inside the interval -/
+theorem gt_mem_of_angle (pi s lo hi x : ℝ) (hpi : 0 < pi) (h : lo < hi)
+    (ha : |Real.arctan (x / s)| < pi / 2) :
+    lo < gt pi s lo hi x ∧ gt pi s lo hi x < hi := by
+  unfold gt
+  have ⟨h1, h2⟩ := abs_lt.mp ha
+  have hw : 0 < hi - lo := by linarith
+  constructor
+  · have : 0 < (Real.arctan (x / s) + pi / 2) * (hi - lo) / pi :=
+      div_pos (mul_pos (by linarith) hw) hpi
+    linarith
+  · have : (Real.arctan (x / s) + pi / 2) * (hi - lo) / pi < hi - lo := by
+      rw [div_lt_iff₀ hpi]
+      nlinarith
+    linarith
+
+theorem gh_hasDerivAt (s lo hi x : ℝ) :
+    HasDerivAt (gh s lo hi) (1 / Real.cosh (x / s) ^ 2 * (hi - lo) / (2 * s)) x := by
+  have h0 : HasDerivAt (fun y : ℝ => y / s) (1 / s) x := (hasDerivAt_id x).div_const s
+  have h1 := (hasDerivAt_tanh (x / s)).comp x h0
+  have h2 := (((h1.add_const (1 : ℝ)).mul_const (hi - lo)).div_const 2).add_const lo
+  refine (h2.congr_deriv ?_)
+  ring
+
+theorem gt_hasDerivAt (pi s lo hi x : ℝ) :
+    HasDerivAt (gt pi s lo hi) ((hi - lo) / (pi * s * ((x / s) ^ 2 + 1))) x := by
+  have h0 : HasDerivAt (fun y : ℝ => y / s) (1 / s) x := (hasDerivAt_id x).div_const s
+  have h1 := (Real.hasDerivAt_arctan (x / s)).comp x h0
+  have h2 := (((h1.add_const (pi / 2)).mul_const (hi - lo)).div_const pi).add_const lo
+  refine (h2.congr_deriv ?_)
+  have : (1 : ℝ) + (x / s) ^ 2 ≠ 0 := by positivity
+  by_cases hp : pi = 0
+  · subst hp; simp
+  by_cases hs : s = 0
+  · subst hs; simp
+  field_simp
+  ring
+
+/-- first derivative as a function of the coordinate -/
+noncomputable def gh' (s lo hi x : ℝ) : ℝ := 1 / Real.cosh (x / s) ^ 2 * (hi - lo) / (2 * s)
+noncomputable def gt' (pi s lo hi x : ℝ) : ℝ := (hi - lo) / (pi * s * ((x / s) ^ 2 + 1))
+
+theorem d1_at (pi : ℝ) (t : IT ℝ) (x : ℝ) :
+    d1 pi (t.at x) = if t.hyper then gh' t.scale t.lo t.hi x else gt' pi t.scale t.lo t.hi x := by
+  obtain ⟨s, lo, hi, hy, x0⟩ := t
+  cases hy <;> simp [d1_real, «at», gh', gt']
+
+theorem gh'_hasDerivAt (s lo hi x : ℝ) :
+    HasDerivAt (gh' s lo hi)
+      (-1 / Real.cosh (x / s) ^ 2 * Real.tanh (x / s) * (hi - lo) / (s * s)) x := by
+  have hc : Real.cosh (x / s) ≠ 0 := (Real.cosh_pos _).ne'
+  have h0 : HasDerivAt (fun y : ℝ => y / s) (1 / s) x := (hasDerivAt_id x).div_const s
+  have h1 := (Real.hasDerivAt_cosh (x / s)).comp x h0
+  have h2 := (h1.pow 2).inv (pow_ne_zero 2 hc)
+  have h3 := (h2.mul_const (hi - lo)).div_const (2 * s)
+  have e : gh' s lo hi = fun y => ((Real.cosh ∘ fun y => y / s) y ^ 2)⁻¹ * (hi - lo) / (2 * s) := by
+    funext y; simp [gh']
+  rw [e]
+  refine (h3.congr_deriv ?_)
+  rw [Real.tanh_eq_sinh_div_cosh]
+  simp only [Function.comp, Pi.pow_apply]
+  by_cases hs : s = 0
+  · subst hs; simp
+  field_simp
+  ring
+
+theorem gt'_hasDerivAt (pi s lo hi x : ℝ) :
+    HasDerivAt (gt' pi s lo hi)
+      (-2 * x * (hi - lo) / (pi * s ^ 3 * ((x / s) ^ 2 + 1) ^ 2)) x := by
+  have h0 : HasDerivAt (fun y : ℝ => y / s) (1 / s) x := (hasDerivAt_id x).div_const s
+  have h1 := (((h0.pow 2).add_const (1 : ℝ)).const_mul (pi * s))
+  by_cases hp : pi = 0
+  · subst hp
+    have e : gt' 0 s lo hi = fun _ => (0 : ℝ) := by funext y; simp [gt']
+    rw [e]; simpa using hasDerivAt_const x (0 : ℝ)
+  by_cases hs : s = 0
+  · subst hs
+    have e : gt' pi 0 lo hi = fun _ => (0 : ℝ) := by funext y; simp [gt']
+    rw [e]; simpa using hasDerivAt_const x (0 : ℝ)
+  have hne : pi * s * ((x / s) ^ 2 + 1) ≠ 0 := by
+    have : (x / s) ^ 2 + 1 ≠ 0 := by positivity
+    exact mul_ne_zero (mul_ne_zero hp hs) this
+  have h2 := (h1.inv hne).const_mul (hi - lo)
+  have e : gt' pi s lo hi = fun y => (hi - lo) * (pi * s * ((y / s) ^ 2 + 1))⁻¹ := by
+    funext y; simp [gt', div_eq_mul_inv]
+  rw [e]
+  refine (h2.congr_deriv ?_)
+  simp only [Pi.pow_apply]
+  have : (x / s) ^ 2 + 1 ≠ 0 := by positivity
+  have e2 : (x / s) ^ (2 - 1) = x / s := by norm_num
+  rw [e2]
+  have hs' : s ≠ 0 := hs
+  field_simp
+  push_cast
+  ring
+
 end IT
+
+/-! ### the library's constants (regenerated from NumConstants.h on every run) -/
+
+theorem libPI_pos : (0 : ℝ) < libPI := by
+  simp only [libPI, Generated.TransformConstants.PI, ofRat_eq]
+  norm_num
+
+/-- the hypothesis the tangent round trip forces on the constant: `PI() ≤ π`.  False for the
+original `3.141593`, true for the full-precision double. -/
+theorem libPI_lt_pi : (libPI : ℝ) < Real.pi := by
+  have h := Real.pi_gt_d20
+  simp only [libPI, Generated.TransformConstants.PI, ofRat_eq]
+  refine lt_trans ?_ h
+  norm_num
+
+theorem libTINY_pos : (0 : ℝ) < libTINY := by
+  simp only [libTINY, Generated.TransformConstants.TINY, ofRat_eq]
+  norm_num
 
 end Bpp.Transform
